@@ -279,8 +279,8 @@ def run(ctx: Ctx) -> None:
     root = os.path.join(ctx.tmp, "search")
     os.makedirs(root, exist_ok=True)
     rng = ctx.rng
-    npk_full = ctx.pick(8, 120)
-    npk_insp = ctx.pick(3, 40)
+    npk_full = ctx.pick(8, 100)
+    npk_insp = ctx.pick(3, 32)
     nm = 5
     sets: list[tuple[str, dict, dict, list[str], tuple[str, ...]]] = []
     files: dict[str, str] = {}
